@@ -417,18 +417,18 @@ func (s *LegacyServer) Revocation(ctx context.Context, r *ClientRequest[oidc.Rev
 
 	var subject string
 	doDecrypt := true
-	if r.Data.TokenTypeHint != "access_token" {
-		userID, tokenID, err := s.provider.Storage().GetRefreshTokenInfo(ctx, r.Client.GetID(), r.Data.Token)
-		if err != nil {
-			// An invalid refresh token means that we'll try other things (leaving doDecrypt==true)
-			if !errors.Is(err, ErrInvalidRefreshToken) {
-				return nil, RevocationError(oidc.ErrServerError().WithParent(err))
-			}
-		} else {
-			r.Data.Token = tokenID
-			subject = userID
-			doDecrypt = false
+	// the token_type_hint is only a hint (RFC 7009, section 2.1): a refresh token is looked up whatever it says,
+	// because an opaque refresh token may well decrypt to something that looks like an access token
+	userID, tokenID, err := s.provider.Storage().GetRefreshTokenInfo(ctx, r.Client.GetID(), r.Data.Token)
+	if err != nil {
+		// An invalid refresh token means that we'll try other things (leaving doDecrypt==true)
+		if !errors.Is(err, ErrInvalidRefreshToken) {
+			return nil, RevocationError(oidc.ErrServerError().WithParent(err))
 		}
+	} else {
+		r.Data.Token = tokenID
+		subject = userID
+		doDecrypt = false
 	}
 	if doDecrypt {
 		tokenID, userID, ok := getTokenIDAndSubjectForRevocation(ctx, s.provider, r.Data.Token)
